@@ -174,3 +174,26 @@ Proof.
 Qed.
 Lemma guard_from_not_exp g c ss : forall i v, guard_from g c i ss <> TExp v.
 Proof. induction ss as [|s ss IH]; intros i v; cbn; [discriminate|]. destruct (g _); [apply IH|discriminate..]. Qed.
+Lemma collect_right_spec c exc t : forall acc p,
+  collect_right c (map raw t) acc exc =
+  match first_none c p t with Some _ => CRRaise exc | None => CRCompose (acc ++ t) end.
+Proof.
+  induction t as [|[k z] t IH]; intros acc p; [cbn; now rewrite app_nil_r|].
+  cbn [map collect_right first_none]. replace (parse_item (raw (k, z))) with (Some (k, z)) by (symmetry; now apply parse_item_iff).
+  unfold item_present. cbn [fst snd]. destruct (nth (Z.to_nat z) (objs c k) false); [|reflexivity].
+  etransitivity; [apply (IH (acc ++ [(k, z)]) (S p))|]. destruct (first_none c (S p) t); [reflexivity|].
+  now rewrite <- app_assoc.
+Qed.
+(* both ways of writing the loop hand the objects to compose_qoperations in reverse schedule order *)
+Lemma collect_left_crun c exc t :
+  collect_left c (map raw t) [] exc = crun_of (match first_none c 0 t with Some p => CValueError p | None => CRun t end) \/ exc <> "ValueError"%string.
+Proof.
+  destruct (String.eqb_spec exc "ValueError") as [->|N]; [left|now right].
+  rewrite (collect_left_spec c "ValueError" t [] 0). destruct (first_none c 0 t); cbn; [reflexivity|now rewrite app_nil_r].
+Qed.
+Lemma collect_right_crun c exc t :
+  cr_rev (collect_right c (map raw t) [] exc) = crun_of (match first_none c 0 t with Some p => CValueError p | None => CRun t end) \/ exc <> "ValueError"%string.
+Proof.
+  destruct (String.eqb_spec exc "ValueError") as [->|N]; [left|now right].
+  rewrite (collect_right_spec c "ValueError" t [] 0). destruct (first_none c 0 t); reflexivity.
+Qed.
